@@ -1032,6 +1032,39 @@ def _wrapper(rep):
                 bad.append((cutoff, cl is not None, pbc, rf, rd))
         rep.add(Ob(id="wrapper.initialises-with-inf-and-forwards-arguments", status="proved" if not bad else "refuted", backend="exact-evaluation", kind="exact",
                    func=REL + ":get_displacement_tensor", detail="%d argument combinations; failures %s" % (n_cases, bad[:3])))
+        # the same with a symbolic cell (any handedness, any shape, degenerate or not): periodicity and cutoff reach the C++ code unchanged on every path
+        import z3
+        from engine.pyvc import sreal, z3num
+        from engine.aseshim import sym_cell
+        bad2 = []
+        for pbc in ((True, True, True), (False, False, True), (True, False, True), (False, False, False)):
+            for cutoff in (None, 2.5):
+                ex = Explorer(REL + ":get_displacement_tensor")
+                box = {}
+
+                def thunk2(st, pbc=pbc, cutoff=cutoff):
+                    calls.clear()
+                    C = sym_cell("c")
+                    box["C"] = C
+                    r = Interp(st).run_func(f, [pos], {"cell": C, "pbc": list(pbc), "cutoff": cutoff, "return_factors": True, "return_distances": True})
+                    ok = len(calls) == 1 and calls[0][4] is C and [bool(x) for x in calls[0][5]] == list(pbc) and calls[0][6] == (float("inf") if cutoff is None else cutoff)
+                    if not ok:
+                        sv = z3.Solver()
+                        sv.set("timeout", 3000)
+                        sv.add(st.pc)
+                        wit = ""
+                        if sv.check() == z3.sat:
+                            mdl = sv.model()
+                            wit = " for the cell %s" % [[str(mdl.eval(z3num(C[i, j]), model_completion=True)) for j in range(3)] for i in range(3)]
+                        bad2.append("pbc %s cutoff %s: the C++ search is called with pbc %s cutoff %s%s" % (
+                            list(pbc), cutoff, [bool(x) for x in calls[0][5]] if calls else None, calls[0][6] if calls else None, wit))
+                    return r
+
+                oc2 = ex.explore(thunk2)
+                if any(o[0] == "raise" for o in oc2):
+                    bad2.append("raises %r" % ([o[1] for o in oc2 if o[0] == "raise"][0],))
+        rep.add(Ob(id="wrapper.periodicity-and-cutoff-forwarded-for-every-cell", status="proved" if not bad2 else "refuted", backend="pyvc+z3", kind="vc",
+                   func=REL + ":get_displacement_tensor", detail="; ".join(bad2)[:700]))
         # expand_pbc
         g = m.get("expand_pbc")
         res = []
